@@ -56,6 +56,35 @@ def run(v, tier, seed, replay):
     suvec.report_rejections(v, rej2, "random/")
     v.add("traces_validated_against_impl", a + a2)
     v.add("events_validated", m + m2)
+    # 4. every statement shape that consumes an rvalue operand ("an arithmetic expression that consumes an rvalue operand"):
+    #    SpecShape from prepared pools, all operations with an rvalue overload, both operand positions, every statement kind
+    import hashlib
+    cfgs = suvec.bfs_cfg("C08_shape", vecs=3, dims=(2, 3), exts=(1, 2), maxops=2, ops=("add", "neg", "elementwise", "smul"), next_op="SpecShape",
+                         props=("WriteFrame", "ExternalStable", "FailureFrame"))
+    rs = vlib.tlc("SUVec", cfgs, timeout=2400)
+    vlib.tlc_ok(rs, "C08 shape exploration")
+    if rs.violated:
+        raise Infra("SUVec violates %s in the shape exploration (model defect)" % rs.violated)
+    rv = [e for e in rs.edges if e["act"]["arv"] or e["act"]["brv"]]
+    shsegs = []
+    for (ds, dl), mod in ([((2, 3), 4), ((2, 4), 12), ((3, 5), 12)] if tier == "quick" else [((2, 3), 1), ((2, 4), 2), ((3, 5), 2), ((4, 6), 3)]):
+        keep = lambda i, e: int(hashlib.md5(("%d|%d|%d|%s" % (seed, ds, dl, json.dumps(e["act"], sort_keys=True) + json.dumps(e["kinds"]))).encode()).hexdigest()[:6], 16) % mod == 0
+        scripts = suvec.shape_scripts(rv, ds, dl, keep)
+        sg, inf = suvec.run_paths(exe, scripts)
+        guard = 0
+        while inf.get("crashed") and guard < 20:
+            guard += 1
+            suvec.crash_violation(v, inf, "shape/d%d%d/" % (ds, dl))
+            shsegs += sg
+            scripts = scripts[len(sg) + 1:]
+            sg, inf = suvec.run_paths(exe, scripts)
+        shsegs += sg
+    m3, a3, rej3 = suvec.validate(shsegs, "c08s", nblk=12, batch=max(100, len(shsegs) // 16 + 1), jobs=12)
+    suvec.report_rejections(v, rej3, "shape/")
+    v.add("states", rs.distinct); v.add("transitions", rs.generated)
+    v.add("traces_validated_against_impl", a3)
+    v.add("events_validated", m3)
+    v.cov["rvalue_statements_replayed"] = len(shsegs)
     for s in segs[len(segs) // 2:len(segs) // 2 + 2] + rsegs[:1]:
         v.sample({"calls": [{k: x for k, x in json.loads(y).items() if k in ("e", "t", "a", "b", "op", "w", "arv", "brv", "out", "hev")} for y in s][:12]})
     v.cov["exhaustive"] = True
